@@ -19,6 +19,8 @@ def build_roots(kinds):
         V = '%s<f32>' % K
         for f in ('dot', 'distance_squared', 'distance'):
             add('r_%s_%s' % (f, K), 'pub fn r_%s_%s(a: %s, b: %s) -> f32 { a.%s(b) }' % (f, K, V, V, f), kind=f, K=K)
+        # unsigned elements: the squared distance is defined (no underflow) exactly when self >= v element-wise, i.e. the difference is taken as self - v
+        add('r_distance_squared_u32_%s' % K, 'pub fn r_distance_squared_u32_%s(a: %s<u32>, b: %s<u32>) -> u32 { a.distance_squared(b) }' % (K, K, K), kind='dist2_u', K=K)
         for f in ('magnitude_squared', 'magnitude'):
             add('r_%s_%s' % (f, K), 'pub fn r_%s_%s(a: %s) -> f32 { a.%s() }' % (f, K, V, f), kind=f, K=K)
         add('r_normalized_' + K, 'pub fn r_normalized_%s(a: %s) -> %s { a.normalized() }' % (K, V, V), kind='normalized', K=K)
@@ -45,6 +47,9 @@ def build_roots(kinds):
     V3 = 'Vec3<f32>'
     add('r_cross', 'pub fn r_cross(a: %s, b: %s) -> %s { a.cross(b) }' % (V3, V3, V3), kind='cross', K='Vec3')
     add('r_vslerp0', 'pub fn r_vslerp0(a: %s, b: %s, f: f32) -> %s { Vec3::slerp_unclamped(a, b, f) }' % (V3, V3, V3), kind='slerp_ends', K='Vec3', max_paths=96)
+    # the clamped forms (inherent and trait): the factor is clamped to [0,1], nothing else
+    add('r_vslerp_clamped', 'pub fn r_vslerp_clamped(a: %s, b: %s, f: f32) -> %s { Vec3::slerp(a, b, f) }' % (V3, V3, V3), kind='slerp_clamped', K='Vec3', max_paths=96)
+    add('r_vslerp_clamped_trait', 'pub fn r_vslerp_clamped_trait(a: %s, b: %s, f: f32) -> %s { vek::ops::Slerp::slerp(a, b, f) }' % (V3, V3, V3), kind='slerp_clamped', K='Vec3', max_paths=96)
     V4 = 'Vec4<f32>'
     add('r_homogenized', 'pub fn r_homogenized(a: %s) -> %s { a.homogenized() }' % (V4, V4), kind='homog', K='Vec4')
     add('r_homogenize', 'pub fn r_homogenize(a: %s) -> %s { let mut a = a; a.homogenize(); a }' % (V4, V4), kind='homog', K='Vec4')
@@ -88,6 +93,24 @@ def run(ctx):
                 ctx.same(key, v, sg, 'alg=: magnitude = sqrt(sum of squares)', w)
                 ctx.same(key + '/squares', v * v, s2, 'alg=: magnitude^2 = magnitude_squared (computed)', w)
             elif k == 'distance_squared': ctx.same(key, rs.only().ret, sum_((x - y) * (x - y) for x, y in zip(A, Bv)), 'alg=: squared distance = |a - b|^2', w)
+            elif k == 'dist2_u':
+                p = rs.only()
+                ctx.same(key, p.ret, sum_((x - y) * (x - y) for x, y in zip(A, Bv)), 'alg=: squared distance = |a - b|^2', w)
+                # the raw (uninterpreted) term: every subtraction is element-of-self minus element-of-v, in this order (for an unsigned type the other
+                # order underflows on exactly the inputs this one accepts)
+                tid = p.d['ret'].get('t') if isinstance(p.d.get('ret'), dict) else None
+                subs = []; seen = set(); stack = [tid] if tid is not None else []
+                while stack:
+                    t = stack.pop()
+                    if t in seen: continue
+                    seen.add(t); term = rs.sem.terms[t]
+                    if term[0] == 'op':
+                        if 'Sub::sub' in term[1] or term[1].startswith('sub'):
+                            subs.append(tuple(rs.sem.terms[x][1] if rs.sem.terms[x][0] == 'in' else '?' for x in term[2]))
+                        stack.extend(term[2])
+                flds = VEC_FIELDS[K][0]
+                want = sorted(('a0.%s' % f, 'a1.%s' % f) for f in flds)
+                ctx.ob(key + '/operand-order', sorted(subs) == want, 'perm: the differences are self[i] - v[i] (operand order decides the domain of an unsigned element type)', w, want[:3], sorted(subs)[:3])
             elif k == 'distance':
                 v = rs.only().ret; d2 = sum_((x - y) * (x - y) for x, y in zip(A, Bv))
                 ctx.same(key, v, alg.sqrt(d2), 'alg=: distance = |a - b|', w)
@@ -216,6 +239,9 @@ def run(ctx):
                 # the complete shape: directions interpolated on the sphere (angle from the NORMALISED operands), length interpolated linearly
                 from .c12 import vslerp
                 vslerp(ctx, key + '/shape', rs, w, False, 'Vec3')
+            elif k == 'slerp_clamped':
+                from .c12 import vslerp
+                vslerp(ctx, key, rs, w, True, 'Vec3')
             elif k == 'homog':
                 vec_eq(ctx, key, rs.only().ret, [x / A[3] for x in A], 'alg=: homogenised = v / w (so w becomes 1)', w)
             elif k == 'isw':
